@@ -128,6 +128,8 @@ def eval_bonds(M, centres, oi, bond, T, res: Result):
         res.violation('orientation-vector-length-not-periodic-distance', case, f'{lens[0].tolist()}')
     try:
         nrm = np.asarray(o.normalize().vectors)
+        if not np.array_equal(np.asarray(o.vectors), vec):
+            res.violation('normalize-modifies-the-original-vectors', case, '')
         if not np.allclose(np.linalg.norm(nrm, axis=-1), 1, atol=1e-12) or not np.allclose(nrm * lens[..., None], vec, atol=1e-9):
             res.violation('normalize-not-unit-parallel', case, '')
         sph = np.asarray(o.vectors_spherical)
@@ -237,6 +239,8 @@ def run_shard(shard) -> Result:
         except Exception as e:  # noqa: BLE001
             res.violation(f'symmetrize-raise-{type(e).__name__}', case, str(e))
             return res
+        if not np.array_equal(np.asarray(o.vectors), vecs):
+            res.violation('symmetrize-modifies-the-original-vectors', case, '')
         res.evals += vecs.shape[0] * vecs.shape[1] * len(R)
         res.outcome(hash((pg, np.round(out, 9).tobytes())))
         if out.shape != (2, 5 * len(R), 3):
@@ -261,6 +265,8 @@ def run_shard(shard) -> Result:
                 res.outcome(hash((name, np.round(out, 9).tobytes())))
                 if not np.allclose(out, own, atol=1e-12):
                     res.violation('transform-does-not-apply-matrix', {'matrix': name}, f'{out[0].tolist()} vs {own[0].tolist()}')
+                if not np.array_equal(np.asarray(o.vectors), vecs):
+                    res.violation('transform-modifies-the-original-vectors', {'matrix': name}, '')
             except Exception as e:  # noqa: BLE001
                 res.violation(f'transform-raise-{type(e).__name__}', {'matrix': name}, str(e))
         from gemdat.utils import cartesian_to_spherical
